@@ -14,13 +14,17 @@ struct Tracer {
     st: Value,
     obs: Value,
     pub lines: u64,
+    /// verdict of the stub-independence re-execution for the next line written (true unless computed otherwise)
+    pub same: bool,
 }
 impl Tracer {
     fn new(path: &str) -> Tracer {
-        Tracer { out: std::io::BufWriter::new(std::fs::File::create(path).unwrap()), st: Value::Null, obs: Value::Null, lines: 0 }
+        Tracer { out: std::io::BufWriter::new(std::fs::File::create(path).unwrap()), st: Value::Null, obs: Value::Null, lines: 0, same: true }
     }
     /// `changed` = the chain may have changed since the last line (re-project), otherwise reuse
     fn write(&mut self, tx: &Value, o: &Outcome, c: &Chain, cfg: &Cfg, changed: bool) -> bool {
+        let same = self.same;
+        self.same = true;
         if changed || self.st.is_null() {
             // a query of the contracts that fails (or panics) must not take the harness down: the state keeps its last
             // projection and the observation says that a public query did not answer
@@ -42,7 +46,7 @@ impl Tracer {
             return false;
         }
         let err = if o.err.contains("bank: zero amount") { "bank: zero amount".to_string() } else { o.err.clone() };
-        writeln!(self.out, "{}", json!({"tx": tx, "ok": o.ok, "err": err, "fx": o.fx, "st": self.st, "obs": self.obs})).unwrap();
+        writeln!(self.out, "{}", json!({"tx": tx, "ok": o.ok, "err": err, "fx": o.fx, "st": self.st, "obs": self.obs, "same": same})).unwrap();
         self.lines += 1;
         true
     }
@@ -58,6 +62,13 @@ fn max_num(v: &Value) -> u64 {
 }
 
 /// a probe is a dry run: executed on a clone, nothing committed
+/// to be called BEFORE run_event: the comparison starts from the pre-state
+fn stub_check(tr: &mut Tracer, c: &Chain, cfg: &Cfg, tx: &Value) {
+    if cfg.stub_compare && is_exit_tx(tx) {
+        tr.same = stubs_same(c, cfg, tx);
+    }
+}
+
 fn run_event(c: &mut Chain, tx: &Value) -> (Outcome, bool) {
     if tx["k"] == "probe" {
         let mut c2 = c.clone();
@@ -117,6 +128,7 @@ fn main() {
                 let mut diverged = false;
                 for (i, st) in states.iter().enumerate().skip(1) {
                     let tx = &st["ev"]["tx"];
+                    stub_check(&mut tr, &c, &cfg, tx);
                     let (o, changed) = run_event(&mut c, tx);
                     steps += 1;
                     tr.write(tx, &o, &c, &cfg, changed);
@@ -149,6 +161,7 @@ fn main() {
             tr.write(&reset, &okk(), &c, &cfg, true);
             let mut res = vec![];
             for tx in script["events"].as_array().unwrap() {
+                stub_check(&mut tr, &c, &cfg, tx);
                 let (o, changed) = run_event(&mut c, tx);
                 res.push(json!({"tx": tx, "ok": o.ok, "err": o.err}));
                 tr.write(tx, &o, &c, &cfg, changed);
@@ -190,6 +203,7 @@ fn main() {
                         Some(t) => t,
                         None => { i += 1; continue; }
                     };
+                    stub_check(&mut tr, &c, &rcfg, &tx);
                     let (o, changed) = run_event(&mut c, &tx);
                     let e = kinds.entry(kind.clone()).or_default();
                     e.0 += 1;
